@@ -548,6 +548,15 @@ class SymBytes:
                 return p
         return -1
 
+    def isascii(self):
+        """one fork on the conjunction (bytes.isascii() is True for the empty string)"""
+        conds = [it < 0x80 for it in self.items if not isinstance(it, int)]
+        if any(isinstance(it, int) and it >= 0x80 for it in self.items):
+            return False
+        if not conds:
+            return True
+        return bool(mkbool(z3.And(*[tobool(c) for c in conds])))
+
     def startswith(self, p):
         if isinstance(p, tuple):
             return any(self.startswith(x) for x in p)
